@@ -724,6 +724,104 @@ class C04(Check):
                                            [(t, v[0]) for t, v in rows if t >= t_act - hyd][:5]),
                                         {"schedule": s, "expected_from": t_act, "expected_value": exp, "timeline": [(t, v[0]) for t, v in rows][:12]}))
 
+    def _inp_text_oracle(self, ctx, failures, n=None):
+        """controls configured as INP TEXT: `LINK x status AT TIME t` / `AT CLOCKTIME c [AM|PM]` in every spelling the EPANET
+        format allows (decimal hours, h:mm, h:mm:ss; 24-hour clock times without marker, 12-hour ones with AM / PM, the noon and
+        midnight hours in both) must act at the instant the text names.  The expected instant comes from an independent reading
+        of the text (EPANET users manual: 12 AM is midnight, 12 PM is noon, no marker = 24-hour clock); the observed one is the
+        first reported row (report ALL) in which the real simulator shows the commanded status, on a model read by the real INP reader."""
+        wntr = vlib.import_wntr()
+        rng = ctx.rng
+        n = n or (10 if ctx.quick else 80)
+
+        def sim_form():
+            sec = rng.choice([rng.randint(1, 29 * 3600), 900 * rng.randint(1, 4 * 29), 3600 * rng.randint(1, 29), 12 * 3600 + rng.randint(0, 3599)])
+            f = rng.choice(["dec", "hm", "hms"])
+            if f == "dec":
+                sec -= sec % 900
+                sec = max(sec, 900)
+                return ("%g" % (sec / 3600.0)), sec
+            if f == "hm":
+                sec -= sec % 60
+                sec = max(sec, 60)
+                return "%d:%02d" % (sec // 3600, sec % 3600 // 60), sec
+            return "%d:%02d:%02d" % (sec // 3600, sec % 3600 // 60, sec % 60), sec
+
+        def clock_form():
+            hh = rng.choice([0, 12, 12, rng.randint(1, 11), rng.randint(13, 23)])
+            mm, ss = rng.randint(0, 59), rng.randint(0, 59)
+            f = rng.choice(["24hm", "24hms", "24dec", "12hm", "12hms", "12h"])
+            if f == "24hm":
+                return "%d:%02d" % (hh, mm), hh * 3600 + mm * 60
+            if f == "24hms":
+                return "%02d:%02d:%02d" % (hh, mm, ss), hh * 3600 + mm * 60 + ss
+            if f == "24dec":
+                q = rng.randint(0, 3)
+                return "%g" % (hh + q / 4.0), hh * 3600 + q * 900
+            h12 = hh % 12 or 12           # 12-hour spelling of hh: 0 -> 12 AM, 12 -> 12 PM, 13 -> 1 PM
+            ap = "AM" if hh < 12 else "PM"
+            if f == "12hm":
+                return "%d:%02d %s" % (h12, mm, ap), hh * 3600 + mm * 60
+            if f == "12hms":
+                return "%d:%02d:%02d %s" % (h12, mm, ss, ap), hh * 3600 + mm * 60 + ss
+            return "%d %s" % (h12, ap), hh * 3600
+
+        directed = [[("CLOCKTIME", "12:30", 45000), ("CLOCKTIME", "12:00:01", 43201), ("CLOCKTIME", "12:30 AM", 1800), ("CLOCKTIME", "12:15 PM", 44100)],
+                    [("CLOCKTIME", "12", 43200), ("CLOCKTIME", "12.5", 45000), ("CLOCKTIME", "12 AM", 0), ("TIME", "12:30", 45000)]]
+        for k in range(n):
+            if k < len(directed):
+                items = directed[k]
+            else:
+                items = []
+                for i in range(schedgen.NT):
+                    if rng.random() < 0.35:
+                        t, sec = sim_form()
+                        items.append(("TIME", t, sec))
+                    else:
+                        t, sec = clock_form()
+                        items.append(("CLOCKTIME", t, sec))
+            hyd = rng.choice([900, 1800, 3600, 7200])
+            sc = rng.choice([0, 3600 * rng.randint(1, 23), rng.randint(1, 86399)])
+            while any(kind == "CLOCKTIME" and (sec - sc) % 86400 == 0 for kind, _, sec in items):
+                sc = rng.randint(1, 86399)
+            init = {str(i): rng.randint(0, 1) for i in range(schedgen.NT)}
+            s = {"hyd": hyd, "rule": 360, "report": hyd, "duration": 30 * 3600, "start_clock": sc, "init": init, "controls": []}
+            wn0 = schedgen.build_wn(wntr, s)
+            path = "c04_inp_text_%d.inp" % k
+            wntr.network.write_inpfile(wn0, path)
+            txt = open(path).read()
+            lines = ["LINK T%d %s AT %s %s" % (i, "CLOSED" if init[str(i)] == 1 else "OPEN", kind, t) for i, (kind, t, _) in enumerate(items)]
+            if txt.count("[CONTROLS]\n") != 1:
+                raise vlib.Infra("C04 inp-text oracle: the written INP file has no single [CONTROLS] header")
+            open(path, "w").write(txt.replace("[CONTROLS]\n", "[CONTROLS]\n" + "\n".join(lines) + "\n"))
+            label = "; ".join(lines)
+            try:
+                wn = wntr.network.WaterNetworkModel(path)
+                wn.options.time.report_timestep = "ALL"
+                rows, _ = schedgen.run_impl(wntr, wn)
+            except Exception as e:  # the documented spellings must be read and simulated
+                failures.append(Failure("inp-control-text-refused", "INP controls in documented spellings are refused: %s -> %s: %s" % (label, type(e).__name__, str(e)[:200]),
+                                        {"inp_controls": lines, "start_clock": sc, "hyd": hyd, "init": init}))
+                continue
+            finally:
+                try:
+                    os.remove(path)
+                except OSError:
+                    pass
+            for i, (kind, t, sec) in enumerate(items):
+                exp = sec if kind == "TIME" else (sec - sc) % 86400
+                want = 0 if init[str(i)] == 1 else 1
+                obs = next((tt for tt, v in rows if v[i] == want), None)
+                form = "time" if kind == "TIME" else ("clock-" + ("marker" if t.endswith("M") else "24h") + ("-noon-hour" if t.startswith("12") else ""))
+                ctx.case(("inp-text", kind, t, sc, hyd), True)
+                ctx.count("inp-text:" + form)
+                if obs != exp:
+                    failures.append(Failure("inp-control-text-instant",
+                                            "INP control `%s` (start clocktime %d s, hydraulic step %d): must act at sim time %d, observed %s"
+                                            % (lines[i], sc, hyd, exp, "never" if obs is None else "at %d" % obs),
+                                            {"inp_controls": lines, "control": lines[i], "start_clock": sc, "hyd": hyd, "init": init, "expected_at": exp, "observed_at": obs,
+                                             "timeline": [(tt, v[i]) for tt, v in rows][:40]}))
+
     def correspondence(self, ctx):
         failures, broken = [], []
         # corpus first
@@ -750,6 +848,7 @@ class C04(Check):
         self._rule_grid_oracle(ctx, failures)
         self._rule_priority_oracle(ctx, failures)
         self._rule_eq_oracle(ctx, failures)
+        self._inp_text_oracle(ctx, failures)
         self._leak_controls_corr(ctx, failures, broken)
         return failures, broken
 
@@ -771,6 +870,7 @@ class C04(Check):
         self._rule_grid_oracle(ctx, failures)
         self._rule_priority_oracle(ctx, failures)
         self._rule_eq_oracle(ctx, failures)
+        self._inp_text_oracle(ctx, failures, n=40)
         return failures
 
     def replay(self, ctx, path):
